@@ -442,6 +442,17 @@ pub fn run(ctx: &Ctx) -> i32 {
             None => viol.push(Violation { sig: SIG_NESTED.into(), lane: "witness".into(), case: json!({"kind": "witness"}), message: what }),
         }
     }
+    let w_enum = records.get("witness.enum-comment.roundtrip").map(|r| r["parsed"] == false).unwrap_or(false);
+    if w_enum {
+        let what = format!(
+            "a derived unit enum with variants Red (documented) and Blue renders as {} which does not parse back: {}",
+            records["witness.enum-comment.roundtrip"]["text"], records["witness.enum-comment.roundtrip"]["error"]
+        );
+        match known.iter().find(|k| k.sig == SIG_ENUMCOMMENT) {
+            Some(k) => hits.push((k.clone(), what)),
+            None => viol.push(Violation { sig: SIG_ENUMCOMMENT.into(), lane: "witness".into(), case: json!({"kind": "witness"}), message: what }),
+        }
+    }
     let mut by_sig: BTreeMap<String, usize> = BTreeMap::new();
     let mut push = |sig: String, case: Value, message: String, viol: &mut Vec<Violation>| {
         let c = by_sig.entry(sig.clone()).or_insert(0);
